@@ -28,6 +28,8 @@ _i = st.integers
 
 def apply_op(alloc, op):
     if op[0] == "refine":
+        if int(op[2]) == 1 and int(float(op[1]) * 1000) % 2 == 0:
+            return alloc.refine(float(op[1]))  # (the documented default is one level)
         return alloc.refine(float(op[1]), int(op[2]))
     if op[0] == "uniform":
         return alloc.uniform_refinement_depth()
@@ -190,6 +192,6 @@ def history_s(draw):
 
 
 def subchecks():
-    return [Sub("histories", run_history, strategy=history_s(), n_quick=4000, n_thorough=100000,
+    return [Sub("histories", run_history, strategy=history_s(), n_quick=4000, n_thorough=100000, fuzz_thorough=2000,
                 required=("x-boundaries!=y-boundaries", "two-more-x-than-y", "depth>0-at-start", "fixed-cells",
                           "composition-of-2-operations", "cut-by-refine", "cut-by-uniform", "cut-by-griddify"))]
